@@ -182,7 +182,15 @@ type variant struct {
 
 // noSelfTest: the typed project cannot show these violations (the loader
 // overwrites config content with the value of the environment variable).
-var noSelfTest = map[string]bool{"config-several-sources/content+environment": true}
+var noSelfTest = map[string]bool{"config-several-sources/content+environment": true, "config-several-sources/content+environment/external-true": true}
+
+// layered: the fragment refines what the setup declares, so it has to come after it: with the
+// extends placement the setup goes to the base service and the fragment to the extending one
+// (the other variants put the fragment in the base).
+var layered = map[string]bool{
+	"dangling-depends_on/sibling-of-short-list-made-optional":   true,
+	"dangling-depends_on/sibling-of-short-list-made-optional-3": true,
+}
 
 type rule struct {
 	id       string
@@ -239,6 +247,9 @@ var rules = []rule{
 		{"optional-unknown", nil, M{"depends_on": dep("other", false)}, M{"depends_on": dep("ghost", false)}},
 		{"required-on-profile-disabled", nil, M{"depends_on": dep("dz", false)}, M{"depends_on": dep("dz", true)}},
 		{"short-on-profile-disabled", M{"depends_on": L{"other"}}, M{"depends_on": dep("dz", false)}, M{"depends_on": L{"dz"}}},
+		// a short list of two, one entry refined by a later layer: the refinement is that entry's alone
+		{"sibling-of-short-list-made-optional", M{"depends_on": L{"other", "dz"}}, M{"depends_on": dep("dz", false)}, M{"depends_on": dep("other", false)}},
+		{"sibling-of-short-list-made-optional-3", M{"depends_on": L{"dz", "other", "third"}}, M{"depends_on": dep("dz", false)}, M{"depends_on": dep("third", false)}},
 	}},
 	{"dangling-network_mode", scService, []variant{
 		{"service", nil, M{"network_mode": "service:other"}, M{"network_mode": "service:ghost"}},
@@ -309,6 +320,11 @@ var rules = []rule{
 	{"secret-several-sources", scSecret, []variant{
 		{"file+environment", M{"file": "./s.txt"}, M{"labels": M{"a": "b"}}, M{"environment": "SEC"}},
 		{"environment+file", M{"environment": "SEC"}, M{"labels": M{"a": "b"}}, M{"file": "./s.txt"}},
+		// an `external` key or a driver exempts from "no source", not from "several sources"
+		{"file+environment/external-false", M{"file": "./s.txt", "external": false}, M{"labels": M{"a": "b"}}, M{"environment": "SEC"}},
+		{"file+environment/external-true", M{"file": "./s.txt", "external": true}, M{"name": "real"}, M{"environment": "SEC"}},
+		{"environment+file/driver", M{"environment": "SEC", "driver": "custom"}, M{"labels": M{"a": "b"}}, M{"file": "./s.txt"}},
+		{"file/driver+environment", M{"file": "./s.txt"}, M{"labels": M{"a": "b"}}, M{"environment": "SEC", "driver": "custom"}},
 	}},
 	{"secret-no-source", scSecret, []variant{
 		{"labels-only", M{"labels": M{"a": "b"}}, M{"file": "./s.txt"}, M{"labels": M{"c": "d"}}},
@@ -319,6 +335,9 @@ var rules = []rule{
 		{"file+environment", M{"file": "./c.txt"}, M{"labels": M{"a": "b"}}, M{"environment": "CFG"}},
 		{"content+environment", M{"content": "hello"}, M{"labels": M{"a": "b"}}, M{"environment": "CFG"}},
 		{"all-three", M{"file": "./c.txt"}, M{"labels": M{"a": "b"}}, M{"environment": "CFG", "content": "hello"}},
+		{"file+content/external-false", M{"file": "./c.txt", "external": false}, M{"labels": M{"a": "b"}}, M{"content": "hello"}},
+		{"content+environment/external-true", M{"content": "hello", "external": true}, M{"name": "real"}, M{"environment": "CFG"}},
+		{"file/external+environment", M{"file": "./c.txt"}, M{"labels": M{"a": "b"}}, M{"environment": "CFG", "external": false}},
 	}},
 	{"config-no-source", scConfig, []variant{
 		{"labels-only", M{"labels": M{"a": "b"}}, M{"content": "hello"}, M{"labels": M{"c": "d"}}},
@@ -437,8 +456,9 @@ type slot struct {
 
 // doc collects the files of a case while slots are added.
 type doc struct {
-	main, over, base, inc       M
-	usesOver, usesBase, usesInc bool
+	main, over, base, inc                  M
+	usesOver, usesOver2, usesBase, usesInc bool
+	over2                                  M
 }
 
 func section(m M, k string) M {
@@ -451,10 +471,11 @@ func section(m M, k string) M {
 }
 
 func newDoc(rng *rand.Rand) *doc {
-	d := &doc{main: M{}, over: M{}, base: M{}, inc: M{}}
+	d := &doc{main: M{}, over: M{}, over2: M{}, base: M{}, inc: M{}}
 	sv := section(d.main, "services")
 	sv["other"] = M{"image": "img/other", "networks": L{"net1"}, "volumes": L{"vol1:/data"}, "secrets": L{"sec1"}, "configs": L{"cfg1"}}
 	sv["dz"] = M{"image": "img/dz", "profiles": L{"off"}, "depends_on": L{"other"}}
+	sv["third"] = M{"image": "img/third"}
 	// optional extras: consistent by construction
 	if rng.Intn(2) == 0 {
 		sv["rich"] = M{"build": M{"context": ".", "dockerfile_inline": "FROM scratch\n", "secrets": L{"sec2"}},
@@ -504,12 +525,28 @@ func (d *doc) add(i int, sl slot) {
 		case plMain:
 			section(d.main, "services")[name] = merge(start, frag)
 		case plOverride:
+			if layered[r.id+"/"+v.name] {
+				// three layers: the setup arrives in a second file, as written, over a service that
+				// already has the attribute; the fragment refines it in a third file
+				section(d.main, "services")[name] = M{"image": "img/" + name, "labels": M{"slot": name}, "depends_on": M{"other": M{"condition": "service_started"}}}
+				section(d.over, "services")[name] = clone(v.setup)
+				section(d.over2, "services")[name] = clone(frag)
+				d.usesOver, d.usesOver2 = true, true
+				break
+			}
 			if r.scope == scService {
 				section(d.main, "services")[name] = start
 			}
 			section(d.over, "services")[name] = clone(frag)
 			d.usesOver = true
 		case plExtends:
+			if layered[r.id+"/"+v.name] {
+				own := M{"image": "img/" + name, "labels": M{"slot": name}, "extends": M{"file": "base.yaml", "service": "base_" + name}}
+				section(d.main, "services")[name] = merge(own, clone(frag).(M))
+				section(d.base, "services")["base_"+name] = clone(v.setup)
+				d.usesBase = true
+				break
+			}
 			start["extends"] = M{"file": "base.yaml", "service": "base_" + name}
 			section(d.main, "services")[name] = start
 			section(d.base, "services")["base_"+name] = clone(frag)
@@ -554,6 +591,10 @@ func (d *doc) toCase() *ld.Case {
 	if d.usesOver {
 		c.Files["override.yaml"] = toYAML(d.over)
 		c.ComposeFiles = append(c.ComposeFiles, "override.yaml")
+	}
+	if d.usesOver2 {
+		c.Files["override2.yaml"] = toYAML(d.over2)
+		c.ComposeFiles = append(c.ComposeFiles, "override2.yaml")
 	}
 	if d.usesBase {
 		c.Files["base.yaml"] = toYAML(d.base)
